@@ -218,7 +218,7 @@ func run(r *core.Run) int {
 		in := Gen(corpus, f.part, r.Seed, f.idx)
 		r.Count("finding-"+f.kind, 1)
 		r.Violation(f.sig, fmt.Sprintf("%s on input %s#%d (%s): %s", f.kind, f.part, f.idx, trunc(in.Desc, 300), f.what),
-			map[string]any{"Kind": in.Kind, "Desc": in.Desc, "Data": in.Data, "Chain": in.Chain, "Bodies": in.Bodies, "Lengths": in.Lengths, "Endless": in.Endless, "Redirect": in.Redirect, "Together": in.Together, "WithST": in.WithST, "Cache": in.Cache, "stack": f.stack})
+			map[string]any{"Kind": in.Kind, "Desc": in.Desc, "Data": in.Data, "Chain": in.Chain, "Bodies": in.Bodies, "Lengths": in.Lengths, "Endless": in.Endless, "Redirect": in.Redirect, "RetryAfter": in.RetryAfter, "Together": in.Together, "WithST": in.WithST, "Cache": in.Cache, "stack": f.stack})
 	}
 	if !r.Quick() && hangs.Load() < 3 && crashes.Load() < 200 {
 		nativeFuzz(r, work)
